@@ -270,7 +270,16 @@ def main(argv=None):
     findings = load_findings()
     broken = list(skipped[:5])
     obligations = []        # (function, cfg, ob)
+    notes = []
     for r in results:
+        K_ = ct.REGISTRY[r["function"]]
+        if r["engine_errors"] and getattr(K_, "optional_cfg", None) and K_.optional_cfg(r["cfg_raw"]) \
+                and all(e.startswith(("Unsupported", "Escape")) for e in r["engine_errors"]):
+            # the unbounded configuration of this contract is outside the engine's subset for this source text; its
+            # concrete companions (same clauses, concrete shapes) still decide
+            notes.append("%s %s: not analysable (%s); decided on the concrete configurations only" % (r["function"], r["cfg"], r["engine_errors"][0][:120]))
+            r["engine_errors"] = []
+            r["obligations"] = [ob for ob in r["obligations"] if ob["verdict"] == "refuted"]
         for e in r["engine_errors"]:
             broken.append("%s %s: %s" % (r["function"], r["cfg"], e.strip().split("\n")[0][:300]))
         for ob in r["obligations"]:
@@ -454,6 +463,8 @@ def main(argv=None):
     if slow and slow[0][0] > 2.0:
         for s_, fn, cfg, nm, vd in slow:
             lines.append("  slow: %.1fs %s %s %s %s" % (s_, fn, cfg, nm, vd))
+    for n_ in notes[:10]:
+        print("NOTE " + n_)
     for l in lines:
         print(l)
     print("%s tier=%s functions=%d configs=%d obligations=%d proved=%d known=%d refuted_new=%d unknown=%d solver=%.1fs wall=%.1fs exit=%d" % (
